@@ -1,6 +1,10 @@
 use serde_json::Value;
 use std::time::Instant;
 use vdv::props;
+
+#[global_allocator]
+static ALLOC: vdv::allocguard::Guard = vdv::allocguard::Guard;
+
 use vdv::runner::{self, Ctx, Tier};
 
 fn usage() -> ! {
@@ -37,18 +41,30 @@ fn main() {
     }
     runner::install_panic_hook();
     vdv::world::install_hooks();
+    vdv::allocguard::set_active(true);
     let id = args[1].clone();
     let seed: u64 = std::env::var("VERIF_SEED").ok().and_then(|s| s.parse::<i64>().ok()).map(|v| v as u64).unwrap_or(0);
     let threads: usize = std::env::var("VERIF_THREADS").ok().and_then(|s| s.parse().ok()).unwrap_or(16);
+    if args[2] == "gencorpus" {
+        let dir = args.get(3).unwrap_or_else(|| usage());
+        let n: usize = args.get(4).and_then(|s| s.parse().ok()).unwrap_or(100);
+        props::c07::gencorpus(dir, n, seed);
+        return;
+    }
     if args[2] == "replay" {
         let path = args.get(3).unwrap_or_else(|| usage());
-        let text = std::fs::read_to_string(path).expect("cannot read replay file");
-        let v: Value = serde_json::from_str(&text).expect("replay file is not JSON");
+        let raw = std::fs::read(path).expect("cannot read replay file");
+        // a JSON replay file written by the proptest engines, or a raw libFuzzer artifact
+        let v: Value = match std::str::from_utf8(&raw).ok().and_then(|t| serde_json::from_str::<Value>(t).ok()).filter(|v| v.get("case").is_some()) {
+            Some(v) => v,
+            None => serde_json::json!({"engine": "bytes", "case": {"bytes": raw}}),
+        };
         let engine = v["engine"].as_str().unwrap_or("").to_string();
         let case = v["case"].clone();
         let res = std::thread::Builder::new()
             .stack_size(1 << 30)
             .spawn(move || {
+                vdv::allocguard::set_active(true);
                 runner::set_quiet(true);
                 replay(&id.clone(), &engine, &case).map_err(|m| (id, m))
             })
@@ -91,7 +107,10 @@ fn main() {
         let idc = id.clone();
         let res = std::thread::Builder::new()
             .stack_size(1 << 30)
-            .spawn(move || replay(&idc, &engine, &case))
+            .spawn(move || {
+                vdv::allocguard::set_active(true);
+                replay(&idc, &engine, &case)
+            })
             .unwrap()
             .join()
             .unwrap();
@@ -117,8 +136,11 @@ fn main() {
     let wall = t0.elapsed().as_secs_f64();
     let viol = rep.failure.is_some() as u64;
     runner::write_part(&ctx, ext_seed, &rep.stats, &rep.info, wall, viol);
+    let known = runner::load_known(&ctx.root);
     for (k, n) in &rep.stats.known_hits {
-        println!("KNOWN-FINDING: property={} {} (hit {} times)", id, k, n);
+        let what = known.iter().find(|f| f.property == id && &f.key == k).map(|f| f.what.clone()).unwrap_or_default();
+        let what: String = what.chars().take(400).collect();
+        println!("KNOWN-FINDING: property={} {} [key={}; met {} times in this run and excluded from the search]", id, what.replace('\n', " "), k, n);
     }
     eprintln!(
         "[{} {} {}] evaluations={} distinct_nontrivial={} discarded={} wall={:.1}s",
